@@ -149,6 +149,19 @@ def corner_molecules():
         ("T-anion-Li", mk([("T", {"chg": -1}), ("Li", {"chg": 1})], []), "v2000-block"),
         # a bond line whose two atom indices are equal: both readers accept it
         ("self-bonded", mk([("C",), ("O",), ("N",), ("H",)], [(0, 1, 2), (0, 2, 1), (2, 2, 2), (2, 3, 1)]), "v3000"),
+        # properties stored with the value zero (RAD=0, MASS=0, CHG=0 are legal tokens
+        # and the reader keeps them): "every atom keeps all of its attributes"
+        ("methanol-explicit-zeros", mk([("C", {"chg": 0, "rad": 0, "mass": 0}), ("O", {"rad": 0}), ("H", {"mass": 0}), ("H",), ("H", {"chg": 0}), ("H",)], [(0, 1, 1), (0, 2, 1), (0, 3, 1), (0, 4, 1), (1, 5, 1)]), "v3000"),
+        ("hydroxyl-radical-explicit-zeros", mk([("O", {"rad": 2, "mass": 0}), ("H", {"rad": 0})], [(0, 1, 1)]), "v3000"),
+        # atoms listed hydrogens first / already in the order a sort would produce
+        ("HCl-H-first", mk([("H",), ("Cl",)], [(0, 1, 1)]), "v3000"),
+        ("NH3-H-first", mk([("H",), ("H",), ("H",), ("N",)], [(0, 3, 1), (1, 3, 1), (2, 3, 1)]), "v3000"),
+        ("H2O2-H-first", mk([("H",), ("H",), ("O",), ("O",)], [(0, 2, 1), (1, 3, 1), (2, 3, 1)]), "v3000"),
+        ("He-atom", mk([("He",)], []), "v3000"),
+        # no two atoms equivalent (every partition class is a singleton)
+        ("formic-acid", mk([("C",), ("O",), ("O",), ("H",), ("H",)], [(0, 1, 2), (0, 2, 1), (0, 3, 1), (2, 4, 1)]), "v3000"),
+        ("isocyanic-acid", mk([("H",), ("N",), ("C",), ("O",)], [(0, 1, 1), (1, 2, 2), (2, 3, 2)]), "v3000"),
+        ("bromochlorofluoromethane", mk([("Br",), ("C",), ("Cl",), ("F",), ("H",)], [(0, 1, 1), (1, 2, 1), (1, 3, 1), (1, 4, 1)]), "v2000-lines"),
         ("allyl-radical-1", mk([("C", {"rad": 2}), ("C",), ("C",), ("H",), ("H",), ("H",), ("H",), ("H",)], [(0, 1, 1), (1, 2, 2), (0, 3, 1), (0, 4, 1), (1, 5, 1), (2, 6, 1), (2, 7, 1)]), "v3000"),
         ("allyl-radical-3", mk([("C",), ("C",), ("C", {"rad": 2}), ("H",), ("H",), ("H",), ("H",), ("H",)], [(0, 1, 2), (1, 2, 1), (0, 3, 1), (0, 4, 1), (1, 5, 1), (2, 6, 1), (2, 7, 1)]), "v3000"),
     ]
@@ -1010,6 +1023,12 @@ def gen_spec(run_seed, prop, pool, hashseeds, knobs=None):
         palette.append(rng.choice([s0 + 1e-12, s0 + 3e-11, s0 * (1 + 2e-16) if s0 else 5e-324, 0.1 + 0.2 if s0 == 0.3 else s0 + 1e-15]))
         if rng.random() < 0.3:
             palette += [0.3, 0.1 + 0.2]
+    rco = Random(H(run_seed, "corner"))
+    if rco.random() < 0.2:
+        # a hand-specified format corner joins the run's molecules (own stream)
+        corners = [t for t in pool.mol_valid if str(pool.meta[t].get("src", "")).startswith("corner")]
+        if corners:
+            mols.insert(rco.randrange(len(mols) + 1), rco.choice(corners))
     # a molecule and its redrawing (same skeleton and atom order) often meet in one run
     for t in list(mols):
         r = pool.redrawn.get(t)
